@@ -246,7 +246,7 @@ def cases(kind, c, tier):
     elif kind == 'tsum':
         if c.bc == 'segment':
             return  # (needs explicit environments, not offered by this function)
-        pos = W[:4] if c.finite else list(range(-1, 2 * c.L))
+        pos = W[:4] if c.finite else W
         for m, chunk in ((1, 5), (2, 7), (3, 11)):
             ts = [t for t in itertools.product(letters(c, pos), repeat=m) if neutral(c, t)]
             if m == 3:
@@ -275,7 +275,7 @@ def cases(kind, c, tier):
                 if len(s1) > 1 and len(s2) > 1:
                     yield dict(base, sites1=s1[1:], sites2=s2[:-1], array=not val)
                 if full:
-                    strs = ['JW', pool(c.cell[0])[0], ops_list(c, -1)]
+                    strs = ['JW', ops_list(c, -1)] + ([pool(c.cell[0])[0]] if hom else [])
                     for opstr, sof in itertools.product(strs, (True, False)):
                         yield dict(base, sites1=W, sites2=W, opstr=opstr, str_on_first=sof)
                         if herm and opstr == 'JW':
@@ -334,7 +334,7 @@ def cases(kind, c, tier):
             TR = (all_terms + all_terms)[a + 2:a + 2 + nr]
             yield dict(TL=TL, TR=TR, i_L=lo, j_R=list(range(lo + 2, hi - 1)))
             yield dict(TL=TL, TR=TR, i_L=lo, j_R=None if c.finite else list(range(lo + 2, hi - 1))[::-1])
-            yield dict(TL=TL, TR=TR, i_L=lo + 1, j_R=[hi - 2], autoJW=False, opstr=pool(c.cell[0])[0])
+            yield dict(TL=TL, TR=TR, i_L=lo + (len(W) > 4), j_R=[hi - 2], autoJW=False, opstr=pool(c.cell[0])[0])
     elif kind == 'overlap':
         if c.bc == 'segment':
             return
@@ -432,10 +432,13 @@ def check_tsum(c, a):
     terms = [[tuple(x) for x in t] for t in a['terms']]
     st = strengths(a['seed'], len(terms))
     got, _ = c.M.expectation_value_terms_sum(TermList(terms, st))
-    ref = sum(s * c.D.term(t) for s, t in zip(st, terms)) / (c.D.scale if c.env else 1.0)  # (documented: without the norms)
+    ref = sum(s * c.D.term(t) for s, t in zip(st, terms))
+    if c.env:  # (documented: without the norms)
+        ref = ref / (c.M.bra.norm * c.M.ket.norm)
     if close(got, ref):
         return []
-    return [('expectation_value_terms_sum:%s' % ('env' if c.env else c.bc), '%s: got %r, dense sum %r' % (terms, got, ref))]
+    rng = max(max(i for _, i in t) - min(i for _, i in t) for t in terms)
+    return [('expectation_value_terms_sum:%s' % ('env' if c.env else c.bc if c.finite else 'infinite:range=%d' % rng), '%s: got %r, dense sum %r' % (terms, got, ref))]
 
 
 def corr_ref(c, op1, op2, i, j, opstr, sof):
@@ -468,6 +471,8 @@ def check_corr(c, a):
         return []
     bad = np.argwhere(np.abs(got - ref) > TOL * max(1, np.abs(ref).max()))
     rel = {('i<j', 'i=j', 'i>j')[int(np.sign(sorted(sites1)[x] - sorted(sites2)[y])) + 1] for x, y in bad}
+    if c.env and rel == {'i=j'}:
+        tag = 'MPSEnvironment'
     return [('correlation_function:%s:%s%s' % (tag, ','.join(sorted(rel)), ':hermitian' if a.get('hermitian') else ''),
              '%s: got\n%s\ndense\n%s' % (a, np.round(got, 6), np.round(ref, 6)))]
 
@@ -526,7 +531,7 @@ def check_overlap(c, a):
             phi, pv = DN.finite_state(spec['chain'], c.L, spec['k'] + (a['other'] == 'charged'), a['seed'] + 101,
                                       'A' if spec['form'] != 'A' else 'B', NORM_BRA, low_rank=(a['other'] == 'lowrank'))
         if a['ignore_form']:
-            ref = np.vdot(raw_chain(psi), raw_chain(phi)) * psi.norm * phi.norm if a['other'] != 'charged' else 0.0
+            ref = np.vdot(raw_chain(psi), raw_chain(phi)) * psi.norm * phi.norm
         else:
             ref = np.vdot(c.D.ket, pv) * psi.norm * phi.norm
         got = psi.overlap(phi, charge_sector=a['charge_sector'], ignore_form=a['ignore_form'])
